@@ -55,10 +55,27 @@ PartTables(maxg) ==
 
 ---------------------------------------------------------------------------
 (* the properties on logged decision tables *)
+AccAt(a, t, i) ==
+    IF i <= NAbs THEN AccMasksClean(a, t, AbsPathSeq[NormIdx[i]]) ELSE {IF a THEN FullMask ELSE 1}
 NearestOK(a, t, d) ==
     LET acc == TLCEval([j \in NormIdxSet |-> AccMasksClean(a, t, AbsPathSeq[j])]) IN
     /\ \A i \in 1..NAbs : d[i] \in acc[NormIdx[i]]
     /\ \A i \in (NAbs + 1)..NReq : d[i] = (IF a THEN FullMask ELSE 1)
+(* evaluated only after a failed check: the first offending case, spelled out *)
+ReqString(i) == IF i <= NAbs THEN Render(AbsPathSeq[i]) ELSE RenderRel(RelPathOrder[i - NAbs])
+ExplainNearest(a, t, d) ==
+    LET bad == { i \in 1..NReq : d[i] \notin AccAt(a, t, i) } IN
+    IF bad = {} THEN TRUE
+    ELSE LET i == CHOOSE i \in bad : \A j \in bad : i <= j IN
+         PrintT(<<"C20-CASE", "grants", [q \in DOMAIN t |-> t[q]], "resource", ReqString(i),
+                  "privileges the code allows", SetOfMask(d[i]),
+                  "privilege sets the specification accepts", { SetOfMask(m) : m \in AccAt(a, t, i) }>>)
+ExplainTricks(d) ==
+    LET bad == { i \in 1..NAbs : d[i] # d[NormIdx[i]] } IN
+    IF bad = {} THEN TRUE
+    ELSE LET i == CHOOSE i \in bad : \A j \in bad : i <= j IN
+         PrintT(<<"C20-CASE", "resource", ReqString(i), "allows", SetOfMask(d[i]),
+                  "but its clean form", ReqString(NormIdx[i]), "allows", SetOfMask(d[NormIdx[i]])>>)
 TricksOK(d) == \A i \in 1..NAbs : d[i] = d[NormIdx[i]]
 ImplOK(a, t, d) == LET id == TLCEval(ImplDec(a, t)) IN \A i \in 1..NReq : d[i] = id[i]
 
@@ -95,8 +112,8 @@ TrTab ==
                                      /\ NGranted(g) <= (IF a THEN AdminMaxGranted ELSE MaxGranted)
                                      /\ RankFrom(g, 1) >= RankLo /\ RankFrom(g, 1) < RankHi
                                      /\ r > last /\ Len(Ln.dec) = NReq)
-          /\ Check("NearestGrantDecides", NearestOK(a, t, Ln.dec))
-          /\ Check("TricksNeverWiden", TricksOK(Ln.dec))
+          /\ Check("NearestGrantDecides", NearestOK(a, t, Ln.dec) \/ (ExplainNearest(a, t, Ln.dec) /\ FALSE))
+          /\ Check("TricksNeverWiden", TricksOK(Ln.dec) \/ (ExplainTricks(Ln.dec) /\ FALSE))
           /\ Drift("decision-table", ImplOK(a, t, Ln.dec))
           /\ adm' = a /\ tab' = t /\ last' = r
           /\ Bump(IF a THEN "atab" ELSE "ntab")
@@ -111,8 +128,8 @@ TrNode ==
        IN /\ Check("universe-node", /\ Len(g) = NG /\ Ln.at \in 1..NG /\ Ln.mask \in 0..FullMask
                                     /\ \A j \in 1..NG : g[j] = (IF j = Ln.at THEN Ln.mask ELSE -1)
                                     /\ r > last /\ Len(Ln.dec) = NReq /\ ~Ln.admin)
-          /\ Check("NearestGrantDecides", NearestOK(FALSE, t, Ln.dec))
-          /\ Check("TricksNeverWiden", TricksOK(Ln.dec))
+          /\ Check("NearestGrantDecides", NearestOK(FALSE, t, Ln.dec) \/ (ExplainNearest(FALSE, t, Ln.dec) /\ FALSE))
+          /\ Check("TricksNeverWiden", TricksOK(Ln.dec) \/ (ExplainTricks(Ln.dec) /\ FALSE))
           /\ Drift("decision-table", ImplOK(FALSE, t, Ln.dec))
           /\ adm' = FALSE /\ tab' = t /\ last' = r
           /\ Bump("node")
@@ -182,6 +199,14 @@ ImplOut(cfg, t, r) ==
     s.status * 100 + (IF s.served THEN 10 ELSE 0)
         + (IF s.served /\ s.route.kind = "test" THEN (IF s.who = "admin" THEN 2 ELSE 1) ELSE 0)
 HttpInfoSeq == TLCEval([j \in DOMAIN HttpReqSeq |-> ReqInfo(HttpReqSeq[j])])
+ExplainHttp(cfg, t, out) ==
+    LET bad == { j \in DOMAIN HttpReqSeq : OutServed(out[j]) \notin RefServeI(cfg, t, HttpInfoSeq[j]) } IN
+    IF bad = {} THEN TRUE
+    ELSE LET j == CHOOSE j \in bad : \A k \in bad : j <= k IN
+         PrintT(<<"C20-CASE", "handler", cfg, "grants of user u", [q \in DOMAIN t |-> t[q]],
+                  "request", HttpReqSeq[j].m, Render(HttpReqSeq[j].p), "credentials", HttpReqSeq[j].c, "db", Str(HttpReqSeq[j].db),
+                  "status", OutStatus(out[j]), "served", OutServed(out[j]),
+                  "specification expects served in", RefServeI(cfg, t, HttpInfoSeq[j])>>)
 TrHttp ==
     /\ IsEv("Http") /\ cnt.hreqs = 1
     /\ LET g == Ln.g
@@ -194,7 +219,8 @@ TrHttp ==
                                           /\ NGranted(g) <= (IF ci = 0 THEN MaxGranted ELSE 0)
                                           /\ RankFrom(g, 1) >= RankLo /\ RankFrom(g, 1) < RankHi
                                           /\ r > last /\ Len(Ln.out) = N)
-          /\ Check("ServedIffAuthorised", \A j \in 1..N : OutServed(Ln.out[j]) \in RefServeI(cfg, t, HttpInfoSeq[j]))
+          /\ Check("ServedIffAuthorised",
+                   (\A j \in 1..N : OutServed(Ln.out[j]) \in RefServeI(cfg, t, HttpInfoSeq[j])) \/ (ExplainHttp(cfg, t, Ln.out) /\ FALSE))
           /\ Check("NoCredsNoService",
                    \A j \in 1..N : (OutServed(Ln.out[j]) /\ NeedAuth(cfg, HttpReqSeq[j])) => CredWho(HttpReqSeq[j].c) # "invalid")
           /\ Check("TricksNeverServed", \A j \in 1..N : OutServed(Ln.out[j]) => ~Tricky(HttpReqSeq[j].p))
